@@ -55,13 +55,17 @@ type ledgerB struct{}
 
 var errLedgerB = errors.New("ledger B does not sign")
 
-func (ledgerB) CalcID(*channel.Params) (channel.ID, error)                   { return channel.ID{}, errLedgerB }
-func (ledgerB) Sign(wallet.Account, *channel.State) (wallet.Sig, error)       { return nil, errLedgerB }
-func (ledgerB) Verify(wallet.Address, *channel.State, wallet.Sig) (bool, error) { return false, errLedgerB }
-func (ledgerB) NewAsset() channel.Asset                                       { return &AssetB{} }
+func (ledgerB) CalcID(*channel.Params) (channel.ID, error)              { return channel.ID{}, errLedgerB }
+func (ledgerB) Sign(wallet.Account, *channel.State) (wallet.Sig, error) { return nil, errLedgerB }
+func (ledgerB) Verify(wallet.Address, *channel.State, wallet.Sig) (bool, error) {
+	return false, errLedgerB
+}
+func (ledgerB) NewAsset() channel.Asset { return &AssetB{} }
 
 // NewAppID is the sim backend's: app identifiers do not depend on the ledger.
-func (ledgerB) NewAppID() (channel.AppID, error) { return simchannel.AppID{Address: &simwallet.Address{}}, nil }
+func (ledgerB) NewAppID() (channel.AppID, error) {
+	return simchannel.AppID{Address: &simwallet.Address{}}, nil
+}
 
 var (
 	ledgerBOnce sync.Once
